@@ -26,7 +26,7 @@ HITS = ('hit_union_not_closed', 'hit_empty_collection', 'hit_orphan_concepts')
 BUDGET = {'quick': 240, 'thorough': 3000}
 
 
-BIG = 100
+BIG = 40
 
 
 def shards(tier):
